@@ -74,6 +74,15 @@ fn uses(var_name: &str, class: &str, ctor: Ctor, names: &[&str]) -> Vec<Stmt> {
     v.push(probe(get(x(), "zz")));
     v.push(probe(invoke(x(), "zz", vec![])));
     v.push(probe(call(var("type"), vec![x()])));
+    // the constructor reached through the instance: found like any other member (nearest in the
+    // ancestry), initialises that instance again and returns it
+    v.push(probe(bin(BinOp::Eq, invoke(x(), "new", vec![]), x())));
+    v.push(probe(get(x(), "f")));
+    v.push(probe(bin(BinOp::Eq, invoke(x(), "new", vec![s("again")]), x())));
+    v.push(probe(get(x(), "f")));
+    v.push(probe(bin(BinOp::Eq, call(get(x(), "new"), vec![s("via value")]), x())));
+    v.push(probe(get(x(), "f")));
+    v.push(probe(get(x(), "g")));
     for n in names {
         v.push(probe(invoke(x(), "derives", vec![var(n)])));
     }
@@ -119,9 +128,6 @@ fn g1(thorough: bool) -> Vec<Case> {
                 let ctor = ctors[c / 8];
                 // `super` needs a superclass (otherwise a compile error)
                 if level == 0 && (matches!(m, MSpec::CallsSuper | MSpec::SuperValue) || ctor == Ctor::ExplicitSuper) {
-                    ok = false;
-                }
-                if !thorough && depth == 3 && (ctor == Ctor::None || ctor == Ctor::Explicit) && level < 1 {
                     ok = false;
                 }
                 specs.push((m, n, ctor));
